@@ -342,6 +342,28 @@ def check_values(case):
             whiskered = bx @ m.Id(bx.dom[:1] if len(bx.dom) else bx.cod[:1])
             require(not lib_eq(bx, whiskered), "C03:box-vs-whiskered",
                     lambda: "{!r}".format(bx))
+    # values that were hashed before another operation derived a new value
+    # from them: the derived value hashes like any equal value
+    if cls in ("monoidal", "rigid"):
+        hash(d), [hash(bx) for bx in d.boxes]
+        low = d.downgrade()
+        try:
+            fresh = eval(repr(low), namespace("monoidal"))  # noqa: S307
+        except Exception:  # noqa
+            fresh = None   # e.g. grammar words print their own class
+        if fresh is not None and lib_eq(low, fresh):
+            require(hash(low) == hash(fresh), "C03:hash-after-downgrade",
+                    lambda: "{!r} hashed, downgraded, and compared with the "
+                    "equal {!r}".format(d, fresh))
+            for x, y in zip(low.boxes, fresh.boxes):
+                if lib_eq(x, y):
+                    require(hash(x) == hash(y), "C03:hash-after-downgrade",
+                            lambda: "{!r} / {!r}".format(x, y))
+        flipped = d[::-1]
+        again = eval(repr(flipped), namespace(cls))  # noqa: S307
+        if lib_eq(flipped, again):
+            require(hash(flipped) == hash(again), "C03:hash-after-dagger",
+                    lambda: repr(flipped))
     # sums
     terms = [specs.build(t) for t in case["terms"]]
     total = terms[0]
